@@ -33,6 +33,13 @@ def main():
     ok, msg = C.run_factgen()
     if not ok:
         run.broken_obligation("factgen", "the fact extractor no longer understands the source (tie broken): " + msg[-2000:])
+    if ok and os.environ.get("CPF_NO_ADAPTIVE") != "1":
+        run.changed = C.changed_functions(pid)
+        if run.changed and tier == "quick":
+            run.depth = "thorough"
+            C.log("adaptive depth: %d function(s) relevant to %s differ from the validated tree (%s%s): thorough-size generators" %
+                  (len(run.changed), pid, ", ".join(run.changed[:4]), " …" if len(run.changed) > 4 else ""))
+        run.extra["adaptive_depth"] = dict(changed_functions=run.changed[:40], generator_depth=run.depth)
     mod = importlib.import_module("checks." + pid.lower())
     proof_modules = getattr(mod, "LEAN_MODULES", ["Cpf.Props." + pid])
     if ok:
